@@ -11,7 +11,7 @@ from lib import codec, gen, vf
 import ber
 
 FAULTS = ["deliver", "drop", "dup", "late", "wrongid", "wrongcomm", "wrongver", "trunc", "garbage_then_ok", "skip_then_ok", "report",
-          "id_minus_2_31", "id_plus_2_32", "id_plus_1"]
+          "id_minus_2_31", "id_plus_2_32", "id_plus_1", "comm_extended", "comm_prefix", "comm_empty"]
 
 
 def value_vb(k):
@@ -39,6 +39,9 @@ def build_script(word):
             # an id that differs from the outstanding one only above bit 30 / by one: never the outstanding id
             shift = {"id_minus_2_31": "same-2147483648", "id_plus_2_32": "same+4294967296", "id_plus_1": "same+1"}[f]
             own = [{"vbs": value_vb(k + 500).hex(), "rid": shift, "_class": "never", "_k": k + 500}, ok]
+        elif f in ("comm_extended", "comm_prefix", "comm_empty"):
+            cm = {"comm_extended": b"publicX", "comm_prefix": b"publi", "comm_empty": b""}[f]
+            own = [{"vbs": value_vb(k + 600).hex(), "community": cm.hex(), "_class": "never", "_k": k + 600}, ok]
         elif f == "wrongcomm":
             own = [{"vbs": value_vb(k + 900).hex(), "community": b"other".hex(), "_class": "skip", "_k": k + 900}]
         elif f == "wrongver":
